@@ -173,8 +173,7 @@ class BaseMetricLearner(BaseEstimator, metaclass=ABCMeta):
                        tuple_size=getattr(self, '_tuple_size', None),
                        **kwargs)
     # Conform to SLEP010
-    if not hasattr(self, 'n_features_in_'):
-      self.n_features_in_ = (outs if y is None else outs[0]).shape[1]
+    self.n_features_in_ = (outs if y is None else outs[0]).shape[-1]
     return outs
 
   @abstractmethod
